@@ -94,11 +94,29 @@ func NewWriter(w io.Writer, opts ...Option) *Writer {
 	for _, o := range opts {
 		o(cfg)
 	}
+	return &Writer{w: w, schema: cfg.schema, stream: verifNewStream()}
+}
+
+// Bookkeeping helpers (names start with verif/Verif: the engine's race detector does not track model bookkeeping).
+func verifNewStream() int {
 	verifMu.Lock()
 	defer verifMu.Unlock()
 	verifStreams++
 	VerifOpenWriters++
-	return &Writer{w: w, schema: cfg.schema, stream: verifStreams}
+	return verifStreams
+}
+
+func verifPutToken(stream, seq int, rec arrow.Record, schema *arrow.Schema) int {
+	verifMu.Lock()
+	defer verifMu.Unlock()
+	verifTokens = append(verifTokens, VerifToken{Stream: stream, Seq: seq, Rec: rec, Schema: schema, Cost: VerifCost})
+	return len(verifTokens) - 1
+}
+
+func verifWriterClosed() {
+	verifMu.Lock()
+	VerifOpenWriters--
+	verifMu.Unlock()
 }
 
 // VerifWriteFault (harness hook): when it returns true the next Write fails (an I/O or encoding fault inside the
@@ -116,10 +134,7 @@ func (w *Writer) Write(rec arrow.Record) error {
 		return errors.New("arrow/ipc: tried to write record batch with different schema")
 	}
 	clone := array.VerifCloneRecord(rec, false)
-	verifMu.Lock()
-	h := len(verifTokens)
-	verifTokens = append(verifTokens, VerifToken{Stream: w.stream, Seq: w.seq, Rec: clone, Schema: w.schema, Cost: VerifCost})
-	verifMu.Unlock()
+	h := verifPutToken(w.stream, w.seq, clone, w.schema)
 	w.seq++
 	buf := make([]byte, 12)
 	copy(buf, magic[:])
@@ -134,9 +149,7 @@ func (w *Writer) Write(rec arrow.Record) error {
 func (w *Writer) Close() error {
 	if !w.closed {
 		w.closed = true
-		verifMu.Lock()
-		VerifOpenWriters--
-		verifMu.Unlock()
+		verifWriterClosed()
 	}
 	return nil
 }
